@@ -477,6 +477,20 @@ func c09Exec(c *engine.Ctx, cs c09Case) {
 		fail("length-panic", fmt.Sprintf("Length() panicked: %v", p))
 		return
 	}
+	// the same geometry in its other representations: zero-length parts recorded as non-nil empty
+	// slices (what a caller of the New*Flat constructors may pass) instead of nil, and a clone of that
+	for _, v := range emptySliceVariants(t) {
+		var a2, l2 float64
+		if p, _ := engine.Guard(func() { a2, l2 = v.(measured).Area(), v.(measured).Length() }); p != nil {
+			fail("variant-panic", fmt.Sprintf("Area()/Length() panicked on the same geometry built with New*Flat from non-nil empty slices: %v", p))
+			return
+		}
+		if a2 != area || l2 != length {
+			fail("variant-differs", fmt.Sprintf("area %v length %v, but %v and %v when empty parts are non-nil empty slices", area, length, a2, l2))
+			return
+		}
+		c.Count("empty_slice_variants", 1)
+	}
 	area2, exLen, n, absA2, absL := exactMeasures(g)
 	u := math.Ldexp(1, -52)
 	switch g.Kind {
